@@ -269,7 +269,7 @@ def run_case(case):
     import esutil.numpy_util as nu
     rng = np.random.default_rng(case["sub"])
     fam = case["family"]
-    arr = _array(rng)
+    arr = gen.maybe_view(rng, _array(rng), p=0.25)     # 1-d tables are sometimes a non-contiguous view of a larger buffer
     names = list(arr.dtype.names)
     COL.sample({"family": fam, "descr": repr(arr.dtype.descr)[:200], "shape": list(arr.shape)}, limit=8)
     if fam in ("extract", "reorder", "remove"):
